@@ -4,6 +4,17 @@ SHAPE_NOTE = ("Container shapes in the typing context are fixed and small while 
               "(floats as reals); pyvc itself is trusted (cross-checked against CPython on solver-generated inputs each run).")
 
 META = {
+    "C07": {
+        "text": "Proved (layout logic): pdb.ATOM / HETATM read back every field of a PDB coordinate record from its columns, "
+                "also for records cut after the coordinates and CRLF line ends; main.drop_water removes exactly the water "
+                "coordinate records and keeps order. The reader loop (read_pdb) and the grouping in Biomolecule.__init__ "
+                "(first model only, first listed location wins, blank / unknown / TER / END / MODEL records anywhere) are a "
+                "bounded stand-in: every record sequence up to length 3 (thorough 4) over a 15-symbol alphabet plus seeded "
+                "longer ones through the real get_molecule + setup_molecule against an independent column-based reading.",
+        "note": "Two genuine defects found by this check were repaired (blank line ended reading; END records crashed / "
+                "split residues). The enumeration is bounded and never counted as proved; ill-formed files (records of one "
+                "residue not contiguous, empty first model) are outside its domain. " + SHAPE_NOTE,
+    },
     "C08": {
         "text": "Atom.get_common_string_rep / get_pqr_string proved field by field against the fixed PQR columns, and "
                 "print_pqr(--whitespace) followed by pdb2pqr's own Atom.from_pqr_line proved to read every field back, for "
